@@ -459,8 +459,16 @@ class StmtMixin(object):
         # condition (pure)
         self.block = []
         cond = self.truth(self.ev(cond_n), cond_n)
+        cond_asserts = []
         if self.block:
-            fail(cond_n, 'loop condition with side effects')
+            import ir as _ir
+            if all(isinstance(x, Assert) for x in self.block):
+                # run-time checks of evaluating the condition (e.g. no unsigned wrap-around): they are obligations at every evaluation of
+                # the condition -- before the loop and at the end of every iteration
+                cond_asserts = list(self.block)
+                outer.extend(cond_asserts)
+            else:
+                fail(cond_n, 'loop condition with side effects: ' + ' | '.join(_ir.dump(self.block))[:300])
         ns = self.namespace()
         self.block = []
         self.emit(Ghost('loop%s.body_begin' % n.get('_ord')))
@@ -489,7 +497,7 @@ class StmtMixin(object):
         body = self.block
         self.block = []
         self.ev(inc_n)
-        step = self.block
+        step = self.block + cond_asserts
         self.block = outer
         self.frame.continue_label = saved_cont
         lp = Loop(key, cvar.name, cond, step, body, src=where(n))
